@@ -1765,6 +1765,15 @@ def canonicalise(model, f) -> bool:
         named = _nested_generators(node) or named
     if any(isinstance(n, (ast.Name, ast.Attribute)) and (getattr(n, "id", None) == "reduce" or getattr(n, "attr", None) == "reduce") for n in ast.walk(node)):
         named = _reduce_to_loop(node) or named
+    if any(isinstance(n, ast.Name) and n.id == "enumerate" for n in ast.walk(node)):
+        from . import loopnorm as _ln
+        if _ln.NONZERO_ATTR is not None:
+            before = ast.dump(node)
+            node2 = _ln._EnumRangeSym(node).visit(node)
+            if ast.dump(node2) != before:
+                node = node2
+                ast.fix_missing_locations(node)
+                named = True
     # the tables are looked up in the function as it stands now (named constants already written out: `Kind.A` as a key is its number)
     from .model import FuncInfo as _FI
     f_now = _FI(f.name, f.qname, node, f.module, f.cls)
